@@ -14,7 +14,7 @@ use crate::exec::{guarded, snap, snap_matches, Caught, Out, World};
 use crate::types::*;
 
 pub const N_WRITERS: u8 = 15;
-pub const N_READERS: u8 = 12;
+pub const N_READERS: u8 = 13;
 pub const N_SWAP_KINDS: u8 = 7;
 pub const N_WRONG_TYPES: u8 = 7;
 
@@ -369,6 +369,7 @@ fn read_through<T: Elem, Tr: ?Sized + TrX, MV: MX>(v: &AnyVec<Tr, MV>, r: u8, i:
         8 => { let t = v.downcast_ref::<T>().unwrap(); unsafe { &*t.as_ptr().add(i) }.id() }
         9 => { let e = v.at(i); unsafe { e.downcast_ref_unchecked::<T>() }.id() }
         10 => { let n = v.len(); v.iter().rev().nth(n - 1 - i).unwrap().downcast_ref::<T>().unwrap().id() }
-        _ => { let e = v.at(i); let c = e.clone(); drop(e); c.downcast_ref::<T>().unwrap().id() }
+        11 => { let e = v.at(i); let c = e.clone(); drop(e); c.downcast_ref::<T>().unwrap().id() }
+        _ => { let r = v.downcast_ref::<T>().unwrap(); let r2 = r.clone(); drop(r); r2.as_slice()[i].id() }
     }
 }
